@@ -183,6 +183,8 @@ class Resolver:
                 e = ('index', e, ('const', (-el["cidx"] if el["from_end"] else el["cidx"]), 'usize'))
             elif "sub_from" in el:
                 e = ('slice', e, el["sub_from"], el["sub_to"], el["from_end"])
+            if e[0] == 'field' and str(e[2]) == '0' and e[1][0] == 'bin' and e[1][1].endswith("WithOverflow"):
+                e = ('bin', e[1][1][:-len("WithOverflow")], e[1][2], e[1][3])
         return e
 
     def local(self, l, at, depth=0, seen=()):
@@ -346,6 +348,9 @@ def simplify(e):
     k = e[0]
     if k == 'field':
         b = simplify(e[1])
+        # checked arithmetic: (a +? b).0  ==  a + b   (debug builds emit AddWithOverflow + assert, release plain Add)
+        if b[0] == 'bin' and b[1].endswith("WithOverflow") and str(e[2]) == '0':
+            return ('bin', b[1][:-len("WithOverflow")], b[2], b[3])
         inner = b
         if inner[0] == 'variant':
             inner2 = inner[1]
